@@ -18,10 +18,29 @@ becomes several real connections that pipeline the session's requests (names dra
 letter cases) - together where the behaviour overlaps decisions, one after the other where it does not; oracle: every
 command that ARRIVES at a node of the simulated cluster is judged by the behaviour's Allowed table (sub-command
 `c14-concurrent`), unsupported names must be answered with an error.
-Owned: spec/redis/Commands.tla, Route.tla, RouteGen.tla, RouteWin.tla, MC_Commands.cfg, *_Route_*.cfg;
-harness/cases/c14, harness/cmd/c14.
+The read strategy is configuration of a RUNNING processor: Route.tla has ConfigUpdate (strategy in force changes
+between requests and while decisions are in flight; a decision is judged by the strategy in force when it reads it);
+constant StickyStrategy (TRUE = decisions keep the configuration object of start-up) must violate
+RoutedWithinOwnerFamily.  Behaviours with ConfigUpdate (Gen_RouteUpd / Strata_RouteUpd) are run on ONE running processor
+per start-up strategy through the public OnSvcConfigUpdate: arrivals after an update are judged by the new strategy,
+arrivals while the update is applied may follow either (mandatory stratum: all six transitions with reads afterwards).
+Layouts whose masters have NO replica (2x0) are a mandatory stratum for reads under every strategy.
+
+spec/redis/RouteRefresh.tla (+ RouteRefreshGen): routing across a slot refresh (RefreshBegin = CLUSTER NODES received
+by the seed, RefreshEnd = table replaced, Route in between; Reassign changes the replica set of a master whose address
+stays); invariant RoutedByTableInForce; constant CandCache ("before" = cached candidates emptied when the refresh
+begins: a read during the refresh re-creates the stale entry) must violate it, "after" and "none" are clean; window
+W_RouteDuringRefresh must be reachable.  Every behaviour is replayed by `c14-refresh` on a real processor (refresh
+triggered through OnSvcHostAdd, the seeds' replies held, reads judged by their arrival).
+
+A death of the process hosting the processors while an item runs, with frames of the code under test on the
+panicking goroutine's stack, confirmed by re-running that item alone, is a violation attributed to the item
+(`crash/<frame>`: nothing in the property permits a crash); the driver is restarted behind the item.
+Owned: spec/redis/Commands.tla, Route.tla, RouteGen.tla, RouteWin.tla, RouteRefresh.tla, RouteRefreshGen.tla,
+MC_Commands.cfg, *_Route_*.cfg, *_RouteUpd_*.cfg, *RouteRefresh*.cfg; harness/cases/c14, harness/cmd/c14.
 """
 import concurrent.futures as cf
+import json
 import os
 import re
 
@@ -30,30 +49,129 @@ import kit
 LEVEL = "model_checking"
 
 FOREIGN = "W_OverlapForeign"
+STRATEGIES = ("MASTER", "BOTH", "REPLICA")
+REPO_PKG = "github.com/samaritan-proxy/samaritan/"
 
+
+# --------------------------------------------------------------------------- driver (worker process, crashes)
+
+def crash_of(se):
+    """(panic line, first frame of the code under test on the panicking goroutine's stack or None)."""
+    lines = se.splitlines()
+    for i, l in enumerate(lines):
+        if l.startswith("panic:") or l.startswith("fatal error:"):
+            frame, seen = None, False
+            for m in lines[i + 1:]:
+                if m.startswith("goroutine "):
+                    if seen:
+                        break
+                    seen = True
+                    continue
+                if seen and m and not m[0].isspace():
+                    if m.startswith(REPO_PKG):
+                        frame = m[len(REPO_PKG):].strip()
+                        if frame.endswith(")") and "(" in frame:
+                            frame = frame[:frame.rfind("(")]          # the arguments
+                        frame = frame.split("/")[-1]
+                        break
+            return l.strip(), frame
+    return None, None
+
+
+def drive(ctx, sub, args, outfile, n_items=None, timeout=1800, max_crashes=4):
+    """Runs a sub-command of the harness (the process hosts the processors) over its items.  Returns (records,
+    crashes): a crash = {id, what, panic, frame, confirmed}.  The driver writes {"begin": id} before each item; after
+    a death in an item it is re-run alone (confirmation) and the driver is restarted behind it."""
+    records, crashes, start = [], [], 1
+    for attempt in range(max_crashes + 1):
+        part = "%s.%d" % (outfile, attempt)
+        if os.path.exists(part):
+            os.remove(part)
+        rc, so, se = ctx.harness([sub] + args + ["-out", part, "-from", str(start)], timeout=timeout, allow_fail=True)
+        recs = kit.read_ndjson(part) if os.path.exists(part) else []
+        begun = None
+        for r in recs:
+            if "total" in r and len(r) == 1:
+                n_items = r["total"]
+            elif "begin" in r:
+                begun = r
+            else:
+                records.append(r)     # (an item may write several records: the item in progress is the last one begun)
+        if rc == 0:
+            return records, crashes
+        panic, frame = crash_of(se)
+        if not panic or not frame or begun is None:
+            if crashes:
+                ctx.notes.append("%s: driver died outside the code under test after %d crashes: %s" % (sub, len(crashes), se[-600:]))
+                return records, crashes
+            raise kit.Inconclusive("harness %s exited %d: %s" % (sub, rc, (se or so)[-2500:]))
+        # confirmation: the item alone
+        cpart = "%s.confirm%d" % (outfile, attempt)
+        rc2, so2, se2 = ctx.harness([sub] + args + ["-out", cpart, "-from", str(begun["begin"]), "-to", str(begun["begin"])],
+                                    timeout=timeout, allow_fail=True)
+        panic2, frame2 = crash_of(se2)
+        crashes.append({"id": begun["begin"], "what": begun.get("what", ""), "panic": panic, "frame": frame,
+                        "confirmed": rc2 != 0 and frame2 == frame, "stack": se[se.find(panic):][:3000]})
+        kit.log("[crash] %s item %s (%s): %s in %s, confirmed=%s" % (sub, begun["begin"], begun.get("what", ""), panic, frame, crashes[-1]["confirmed"]))
+        start = begun["begin"] + 1
+        if n_items is not None and start > n_items:
+            return records, crashes
+    ctx.notes.append("%s: the process hosting the processors died %d times; items from %d on were not run" % (sub, len(crashes), start))
+    return records, crashes
+
+
+def judge_crashes(ctx, sub, crashes):
+    """A confirmed death with frames of the code under test is a violation attributed to the item; an unconfirmed one
+    is reported as not reproducible (infrastructure)."""
+    seen = set()
+    unconfirmed = []
+    for c in crashes:
+        if not c["confirmed"]:
+            unconfirmed.append(c)
+            continue
+        sig = "crash/%s" % c["frame"]
+        if (sig, sub) in seen:
+            continue
+        seen.add((sig, sub))
+        n = len([x for x in crashes if x["confirmed"] and x["frame"] == c["frame"]])
+        ctx.violation(sig, "%s: the process hosting the proxy died (%s, in %s) while it ran: %s; reproduced when the item was re-run alone; "
+                      "%d item(s) of this sub-command died this way" % (sub, c["panic"], c["frame"], c["what"], n), c)
+    return unconfirmed
+
+
+# --------------------------------------------------------------------------- TLC
 
 def route_model(ctx):
-    """Exhaustive runs of Route.tla: the design is clean, the shared-scratch variant yields its counterexample,
-    every window is reachable."""
+    """Exhaustive runs of Route.tla / RouteRefresh.tla: the designs are clean, every broken variant yields its
+    counterexample, every window is reachable."""
+    own = ["RoutedWithinOwnerFamily"]
     jobs = [("Route", "MC_Route_fixed.cfg", None, True, True),
             ("Route", "MC_Route_norep.cfg", None, True, False),
-            ("Route", "MC_Route_fixed_3s.cfg", None, True, False),
-            ("Route", "MC_Route_shared.cfg", ["RoutedWithinOwnerFamily"], False, False),
-            ("Route", "MC_Route_shared_3s.cfg", ["RoutedWithinOwnerFamily"], False, False)]
+            ("Route", "MC_Route_update.cfg", None, True, False),
+            ("Route", "MC_Route_shared.cfg", own, False, False),
+            ("Route", "MC_Route_sticky.cfg", own, False, False),
+            ("RouteRefresh", "MC_RouteRefresh_fixed.cfg", None, True, True),
+            ("RouteRefresh", "MC_RouteRefresh_cachebefore.cfg", ["RoutedByTableInForce"], False, False),
+            ("RouteRefresh", "MC_RouteRefresh_window.cfg", ["WindowNeverReached"], False, False)]
     if ctx.thorough:
-        jobs.append(("Route", "MC_Route_fixed_3s_all.cfg", None, True, False))
+        jobs += [("Route", "MC_Route_fixed_3s.cfg", None, True, False),
+                 ("Route", "MC_Route_fixed_3s_all.cfg", None, True, False),
+                 ("Route", "MC_Route_update_r2.cfg", None, True, False),
+                 ("Route", "MC_Route_shared_3s.cfg", own, False, False),
+                 ("RouteRefresh", "MC_RouteRefresh_cacheafter.cfg", None, True, False)]
 
     def one(j):
         mod, cfg, exp, count, cov = j
-        return j, ctx.mc("redis", mod, cfg, expect_violated=exp, count=count, workers=2, timeout=600, coverage=cov)
+        return j, ctx.mc("redis", mod, cfg, expect_violated=exp, count=count, workers=1 if mod == "RouteRefresh" else 2,
+                         timeout=600, coverage=cov)
 
     with cf.ThreadPoolExecutor(max_workers=3) as ex:
         res = list(ex.map(one, jobs))
     for (mod, cfg, exp, count, cov), r in res:
         if cov and r.coverage:
-            ctx.check_vacuity(r, mod)
+            ctx.check_vacuity(r, mod, ignore=("ConfigUpdate",) if cfg == "MC_Route_fixed.cfg" else ())
         if exp and "WritesToOwningMaster" in r.violated:
-            raise kit.Inconclusive("%s: the shared-scratch variant must not touch the write path" % cfg)
+            raise kit.Inconclusive("%s: the broken variant must not touch the write path" % cfg)
     r = ctx.tlc("redis", "RouteWin", "MC_Route_traps.cfg", workers=1, timeout=300)
     if "@@UNREACHED" in r.stdout:
         m = re.search(r'@@UNREACHED",\s*(.*?)>>', r.stdout, re.S)
@@ -62,53 +180,84 @@ def route_model(ctx):
         raise kit.Inconclusive("window reachability run MC_Route_traps.cfg: %s" % (r.error or str(r.violated))[:500])
 
 
-def route_behaviours(ctx):
-    """RouteGen behaviours: free simulation + the mandatory stratum per layout."""
-    if ctx.thorough:
-        cfgs = [("Gen_Route_2x2.cfg", 600), ("Strata_Route_2x2.cfg", 60), ("Gen_Route_3x1.cfg", 600), ("Strata_Route_3x1.cfg", 60),
-                ("Gen_Route_2x1.cfg", 600), ("Strata_Route_2x1.cfg", 60), ("Gen_Route_2x0.cfg", 300), ("Strata_Route_2x0.cfg", 60)]
-    else:
-        cfgs = [("Gen_Route_2x2.cfg", 250), ("Strata_Route_2x2.cfg", 60), ("Gen_Route_3x1.cfg", 150), ("Strata_Route_3x1.cfg", 60)]
-
+def simulate(ctx, module, tag, cfgs, depth):
     def one(c):
         cfg, num = c
-        r = ctx.tlc("redis", "RouteGen", cfg, mode="sim", workers=1, sim_num=num, sim_depth=80, seed=ctx.seed,
+        r = ctx.tlc("redis", module, cfg, mode="sim", workers=1, sim_num=num, sim_depth=depth, seed=ctx.seed,
                     deadlock=False, timeout=300)
-        behs = [p for (tag, p) in r.prints if tag == "BEH"]
+        behs = [p for (t, p) in r.prints if t == tag]
         if r.timeout or r.violated or len(behs) < num // 2:
             raise kit.Inconclusive("behaviour generation failed (%s): %d behaviours, %s" % (cfg, len(behs), (r.error or str(r.violated))[:500]))
         return cfg, behs
 
-    out = []
     with cf.ThreadPoolExecutor(max_workers=4) as ex:
-        for cfg, behs in ex.map(one, cfgs):
-            out.extend(behs)
-    layouts = sorted(set(re.search(r"_(\dx\d)\.cfg", c).group(1) for c, _ in cfgs))
-    return out, layouts
+        return list(ex.map(one, cfgs))
 
+
+def route_behaviours(ctx):
+    """RouteGen behaviours: free simulation + the mandatory strata per layout (foreign reads; strategy changes)."""
+    if ctx.thorough:
+        cfgs = [("Gen_Route_2x2.cfg", 600), ("Strata_Route_2x2.cfg", 60), ("Gen_Route_3x1.cfg", 600), ("Strata_Route_3x1.cfg", 60),
+                ("Gen_Route_2x1.cfg", 600), ("Strata_Route_2x1.cfg", 60), ("Gen_Route_2x0.cfg", 300), ("Strata_Route_2x0.cfg", 60),
+                ("Gen_RouteUpd_2x2.cfg", 300), ("Strata_RouteUpd_2x2.cfg", 200), ("Gen_RouteUpd_3x1.cfg", 200), ("Strata_RouteUpd_3x1.cfg", 150),
+                ("Gen_RouteUpd_2x1.cfg", 200), ("Strata_RouteUpd_2x1.cfg", 150)]
+    else:
+        cfgs = [("Gen_Route_2x2.cfg", 200), ("Strata_Route_2x2.cfg", 60), ("Gen_Route_3x1.cfg", 100), ("Strata_Route_3x1.cfg", 60),
+                ("Strata_Route_2x0.cfg", 60), ("Gen_RouteUpd_2x2.cfg", 40), ("Strata_RouteUpd_2x2.cfg", 120)]
+    out = []
+    for cfg, behs in simulate(ctx, "RouteGen", "BEH", cfgs, 80):
+        out.extend(behs)
+    layouts = sorted(set(re.search(r"_Route_(\dx\d)\.cfg", c).group(1) for c, _ in cfgs if "_Route_" in c))
+    upd_layouts = sorted(set(re.search(r"_RouteUpd_(\dx\d)\.cfg", c).group(1) for c, _ in cfgs if "_RouteUpd_" in c))
+    return out, layouts, upd_layouts
+
+
+def refresh_behaviours(ctx):
+    cfgs = [("Strata_RouteRefresh.cfg", 120 if ctx.thorough else 40), ("Gen_RouteRefresh.cfg", 150 if ctx.thorough else 30)]
+    seen, out = set(), []
+    for cfg, behs in simulate(ctx, "RouteRefreshGen", "RBEH", cfgs, 40):
+        for b in behs:
+            k = json.dumps(b, sort_keys=True)
+            if k not in seen:
+                seen.add(k)
+                out.append(b)
+    return out
+
+
+# --------------------------------------------------------------------------- replays
 
 def concurrent_sessions(ctx, vfile, generated):
-    behs, layouts = generated
+    behs, layouts, upd_layouts = generated
     bfile = os.path.join(ctx.work, "route-behaviours.ndjson")
     kit.write_ndjson(bfile, behs)
     cfile = os.path.join(ctx.work, "concurrent.ndjson")
-    args = ["c14-concurrent", "-in", bfile, "-cmds", vfile, "-out", cfile]
-    args += ["-burst", "400", "-fan", "4", "-heavy", "40"] if ctx.thorough else ["-burst", "150", "-fan", "4", "-heavy", "24"]
-    rc, so, se = ctx.harness(args, timeout=1500, allow_fail=True)
-    results = kit.read_ndjson(cfile) if os.path.exists(cfile) else []
-    stratum = {}   # (layout, strategy) -> commands that arrived in complete runs of the mandatory stratum
+    args = ["-in", bfile, "-cmds", vfile]
+    args += ["-burst", "400", "-fan", "4", "-heavy", "40"] if ctx.thorough else ["-burst", "100", "-fan", "4", "-heavy", "36"]
+    results, crashes = drive(ctx, "c14-concurrent", args, cfile, timeout=1500)
+    unconfirmed = judge_crashes(ctx, "c14-concurrent", crashes)
+    stratum = {}      # (layout, strategy) -> commands that arrived in complete runs of the mandatory stratum
+    transitions = {}  # (layout, from, to) -> read arrivals judged strictly after the update
     errs = []
     for res in results:
+        segs = res.get("segments") or []
         mode = "concurrent-sessions" if res["concurrent"] else "sequential-sessions"
-        progs = sorted(",".join("%s:%s" % (q["sh"], q["kind"]) for q in p) for p in res["sessions"].values())
-        ctx.case(key=["route", res["layout"], res["strategy"], mode, progs], nontrivial=True, n=res["sent"])
-        what = "layout %s, strategy %s, sessions %s (%d connections, %d commands, windows %s)" % (
-            res["layout"], res["strategy"], " || ".join(progs), res["conns"], res["sent"], res.get("windows") or [])
+        if segs:
+            progs = ["%s[%s]" % (sg["strategy"], " || ".join(sorted(",".join("%s:%s" % (q["sh"], q["kind"]) for q in p) for p in sg["sessions"].values())))
+                     for sg in segs]
+            ctx.case(key=["route-upd", res["layout"], mode, progs, [bool(sg.get("updateInFlight")) for sg in segs]], nontrivial=True, n=res["sent"])
+            what = "layout %s, run-time strategy changes %s (%d connections, %d commands, windows %s)" % (
+                res["layout"], " -> ".join(progs), res["conns"], res["sent"], res.get("windows") or [])
+        else:
+            progs = sorted(",".join("%s:%s" % (q["sh"], q["kind"]) for q in p) for p in res["sessions"].values())
+            ctx.case(key=["route", res["layout"], res["strategy"], mode, progs], nontrivial=True, n=res["sent"])
+            what = "layout %s, strategy %s, sessions %s (%d connections, %d commands, windows %s)" % (
+                res["layout"], res["strategy"], " || ".join(progs), res["conns"], res["sent"], res.get("windows") or [])
         classes = {}
         for b in res.get("bad") or []:
-            classes.setdefault(b["class"], b["detail"])
-        for cls, detail in sorted(classes.items()):
-            ctx.violation("%s/%s" % (cls, mode), "%s: %d arrivals outside the allowed nodes, e.g. %s; moved counter +%d" % (
+            where = mode if b.get("phase", "steady") == "steady" else b["phase"]
+            classes.setdefault((b["class"], where), b["detail"])
+        for (cls, where), detail in sorted(classes.items()):
+            ctx.violation("%s/%s" % (cls, where), "%s: %d arrivals outside the allowed nodes, e.g. %s; moved counter +%d" % (
                 what, res["badCount"], detail, res.get("moved", 0)), res)
         for b in res.get("badReplies") or []:
             cls, _, detail = b.partition(": ")
@@ -117,23 +266,72 @@ def concurrent_sessions(ctx, vfile, generated):
             errs.append("%s: %s" % (what, res["err"]))
         elif not res["badCount"] and not res.get("badReplies"):
             ctx.cov["traces_validated_against_impl"] += res.get("behaviours", 1)
-        if res["concurrent"] and FOREIGN in (res.get("windows") or []) and not res.get("err") and res["replies"] == res["sent"] \
+        complete = not res.get("err") and res["replies"] == res["sent"]
+        if not segs and res["concurrent"] and FOREIGN in (res.get("windows") or []) and complete \
                 and all(q["kind"] == "read" for p in res["sessions"].values() for q in p):
             k = (res["layout"], res["strategy"])
             stratum[k] = stratum.get(k, 0) + res["arrivals"]
-        if len(ctx.cov["samples"]) < 6 and FOREIGN in (res.get("windows") or []):
-            ctx.sample({k: res[k] for k in ("layout", "strategy", "sessions", "windows", "conns", "sent", "arrivals", "perNode")})
-    if rc != 0:
-        raise kit.Inconclusive("harness c14-concurrent exited %d: %s" % (rc, (se or so)[-2000:]))
+        if segs and complete:
+            for a, b in zip(segs, segs[1:]):
+                if any(q["kind"] == "read" for p in b["sessions"].values() for q in p):
+                    k = (res["layout"], a["strategy"], b["strategy"])
+                    transitions[k] = transitions.get(k, 0) + b.get("arrivals", 0)
+        if len(ctx.cov["samples"]) < 6 and (FOREIGN in (res.get("windows") or []) or segs):
+            ctx.sample({k: res.get(k) for k in ("layout", "strategy", "sessions", "segments", "windows", "conns", "sent", "arrivals", "perNode")})
+    if unconfirmed:
+        raise kit.Inconclusive("c14-concurrent: the driver died in %s (%s) but not when the item was re-run alone" % (
+            unconfirmed[0]["what"], unconfirmed[0]["panic"]))
     if len(errs) > max(2, len(results) // 10):
         raise kit.Inconclusive("c14-concurrent: %d of %d runs incomplete, e.g. %s" % (len(errs), len(results), errs[0]))
     for e in errs:
         ctx.notes.append("incomplete run (not judged as a whole, arrivals judged): " + e)
-    # the mandatory stratum must have been exercised for every strategy on every layout, with real traffic
-    need = 4000
-    missing = ["%s/%s" % (l, s) for l in layouts for s in ("MASTER", "BOTH", "REPLICA") if stratum.get((l, s), 0) < need]
+    # the mandatory strata must have been exercised, with real traffic: concurrent reads of keys of different shards for
+    # every strategy on every layout (including the layout whose masters have no replica) ...
+    missing = ["%s/%s" % (l, s) for l in layouts for s in STRATEGIES if stratum.get((l, s), 0) < 4000]
     if missing:
         raise kit.Inconclusive("mandatory stratum (concurrent reads of keys of different shards) not exercised: %s" % missing)
+    # ... and reads after every run-time change of the strategy
+    missing = ["%s:%s->%s" % (l, a, b) for l in upd_layouts for a in STRATEGIES for b in STRATEGIES
+               if a != b and transitions.get((l, a, b), 0) < 100]
+    if missing:
+        raise kit.Inconclusive("mandatory stratum (reads after a run-time change of the read strategy) not exercised: %s" % missing)
+
+
+def refresh_replay(ctx, behs):
+    bfile = os.path.join(ctx.work, "refresh-behaviours.ndjson")
+    kit.write_ndjson(bfile, behs)
+    rfile = os.path.join(ctx.work, "refresh.ndjson")
+    results, crashes = drive(ctx, "c14-refresh", ["-in", bfile], rfile, n_items=len(behs), timeout=900)
+    unconfirmed = judge_crashes(ctx, "c14-refresh", crashes)
+    errs, window = [], {}
+    for res in results:
+        ctx.case(key=["refresh", res["strategy"], res["actions"]], nontrivial=True, n=res["reads"])
+        bad = [(st, b) for st in res["steps"] for b in st.get("bad") or []]
+        if bad:
+            st, b = bad[0]
+            where = "read-during-refresh" if "W_RouteDuringRefresh" in res["windows"] else "across-refresh"
+            ctx.violation("read-to-foreign-replica/%s" % where, "strategy %s, steps %s: step %d (%s): %s" % (
+                res["strategy"], " ".join(res["actions"]), st["step"],
+                "routed after the refresh had completed" if st.get("afterRefresh") else "routed before any refresh had completed", b), res)
+        if res.get("err"):
+            errs.append("%s %s: %s" % (res["strategy"], " ".join(res["actions"]), res["err"]))
+        elif not bad:
+            ctx.cov["traces_validated_against_impl"] += 1
+            if "W_RouteDuringRefresh" in res["windows"]:
+                window[res["strategy"]] = window.get(res["strategy"], 0) + 1
+        if len(ctx.cov["samples"]) < 8 and "W_RouteDuringRefresh" in res["windows"]:
+            ctx.sample({k: res[k] for k in ("strategy", "actions", "steps")})
+    if unconfirmed:
+        raise kit.Inconclusive("c14-refresh: the driver died in %s (%s) but not when the item was re-run alone" % (
+            unconfirmed[0]["what"], unconfirmed[0]["panic"]))
+    if len(errs) > max(1, len(results) // 10):
+        raise kit.Inconclusive("c14-refresh: %d of %d replays incomplete, e.g. %s" % (len(errs), len(results), errs[0]))
+    for e in errs:
+        ctx.notes.append("incomplete refresh replay: " + e)
+    if not ctx.violations:
+        missing = [s for s in ("BOTH", "REPLICA") if window.get(s, 0) < 2]
+        if missing:
+            raise kit.Inconclusive("mandatory stratum (read routed during a refresh that changes the replica set) not exercised: %s" % missing)
 
 
 def run(ctx):
@@ -143,25 +341,46 @@ def run(ctx):
         "replica choice is clock based: read-only commands are repeated several times per strategy",
         "the goroutine interleaving inside one routing decision is not forced (no pause point in chooseHost): overlapping decisions "
         "of Route.tla behaviours are sampled by repetition (thousands of pipelined commands per connection, several connections per session)",
+        "a command that is in flight while OnSvcConfigUpdate is applied may follow the old or the new read strategy",
     ]
-    # the Route model runs and the behaviour generation go on while the vectors are replayed
-    bg = cf.ThreadPoolExecutor(max_workers=2)
-    f_model = bg.submit(route_model, ctx)
-    f_behs = bg.submit(route_behaviours, ctx)
-    bg.shutdown(wait=False)
     r = ctx.mc("redis", "Commands", "MC_Commands.cfg", workers=1, timeout=300)
     vecs = [p for (tag, p) in r.prints if tag == "VEC"]
     if len(vecs) < 150:
         raise kit.Inconclusive("only %d vectors emitted" % len(vecs))
     vfile = os.path.join(ctx.work, "vectors.ndjson")
     kit.write_ndjson(vfile, vecs)
-    rfile = os.path.join(ctx.work, "results.ndjson")
-    args = ["c14-run", "-in", vfile, "-out", rfile, "-trials", "20" if ctx.thorough else "6"]
-    if ctx.thorough:
-        args.append("-allcases")
-    ctx.harness(args, timeout=1800)
+    # behaviour generation, then the model runs, go on in the background while the vectors are replayed (a moderate
+    # number of TLC processes at any time)
+    bg = cf.ThreadPoolExecutor(max_workers=2)
+    f_rbehs = bg.submit(refresh_behaviours, ctx)
+    f_behs = bg.submit(route_behaviours, ctx)
+
+    def model_after():
+        cf.wait([f_rbehs, f_behs])
+        route_model(ctx)
+    bg2 = cf.ThreadPoolExecutor(max_workers=1)
+    f_model = bg2.submit(model_after)
+    bg.shutdown(wait=False)
+    bg2.shutdown(wait=False)
+
+    def vectors():
+        rfile = os.path.join(ctx.work, "results.ndjson")
+        args = ["-in", vfile, "-trials", "20" if ctx.thorough else "6"]
+        if ctx.thorough:
+            args.append("-allcases")
+        return drive(ctx, "c14-run", args, rfile, n_items=len(vecs), timeout=1800)
+
+    def reassign():
+        # a replica is re-pointed to another master while the first master keeps its slots
+        return drive(ctx, "c14-reassign", [], os.path.join(ctx.work, "reassign.ndjson"), n_items=2, timeout=300)
+
+    with cf.ThreadPoolExecutor(max_workers=2) as ex:
+        f_vec, f_rea = ex.submit(vectors), ex.submit(reassign)
+        results, crashes = f_vec.result()
+        rresults, rcrashes = f_rea.result()
+    unconfirmed = judge_crashes(ctx, "c14-run", crashes)
     n = 0
-    for res in kit.read_ndjson(rfile):
+    for res in results:
         n += 1
         ctx.case(key=[res["sent"], res["arity"], res["strategy"]], nontrivial=True, n=res["trials"])
         if res.get("bad"):
@@ -173,16 +392,19 @@ def run(ctx):
             ctx.cov["traces_validated_against_impl"] += 1
         if n % 400 == 1:
             ctx.sample(res)
-    # a replica is re-pointed to another master while the first master keeps its slots
-    afile = os.path.join(ctx.work, "reassign.ndjson")
-    ctx.harness(["c14-reassign", "-out", afile], timeout=300)
-    for r in kit.read_ndjson(afile):
+    unconfirmed += judge_crashes(ctx, "c14-reassign", rcrashes)
+    for r in rresults:
         ctx.case(key=["reassign", r["strategy"], r["phase"]], nontrivial=True, n=r["reads"])
         for b in r.get("bad") or []:
             ctx.violation("read-to-foreign-replica/%s/%s" % (r["phase"], r["strategy"]), b, r)
+    if unconfirmed:
+        raise kit.Inconclusive("the driver died in %s (%s) but not when the item was re-run alone" % (
+            unconfirmed[0]["what"], unconfirmed[0]["panic"]))
+    refresh_replay(ctx, f_rbehs.result())
     concurrent_sessions(ctx, vfile, f_behs.result())
     f_model.result()
     ctx.cov["exhaustive"] = True
     ctx.cov["rule"] = ("one case per (name as sent, argument count, read strategy) for every name of the module's finite name space; "
                        "all cases are non-trivial (each drives the real dispatch and routing code); exhaustive over the name space; "
-                       "plus one case per (layout, strategy, concurrent / sequential, multiset of session programs) of the Route behaviours")
+                       "plus one case per (layout, strategy sequence, concurrent / sequential, multiset of session programs) of the Route behaviours "
+                       "and one per RouteRefresh behaviour")
